@@ -25,9 +25,9 @@ def handle (ss : Session) (line : String) : Session × List String :=
         let fs := initializeO cfg ss.st
         (ss, ("(n " ++ toString fs.length ++ ")") :: fs.map (fun (o, f) => o.print ++ "\t" ++ f.print))
     | _ =>
-      match parseCoreDecl sx with
+      match parseDecl sx with
       | some d =>
-          let (st', e) := stepCore ss.st d
+          let (st', e) := step ss.st d
           ({ ss with st := st' }, [match e with | none => "ok" | some e => "(err " ++ e.print ++ ")"])
       | none => (ss, ["(bad-op)"])
 
